@@ -64,17 +64,23 @@ func (w *originWorld) Do(st Step) string {
 func onBigStack(f func()) (p string) {
 	done := make(chan string)
 	go func() {
-		touchStack(0)
-		done <- catch(f)
+		done <- inBigFrame(0, f)
 	}()
 	return <-done
 }
 
+// inBigFrame runs f while a 40 KiB frame is live below it: the stack has been grown to hold that frame (64 KiB), the frame
+// keeps the collector from shrinking it, and about 20 KiB remain for f - deterministically enough for the small targets
+//
 //go:noinline
-func touchStack(n int) int {
-	var buf [48 << 10]byte
+func inBigFrame(n int, f func()) string {
+	var buf [40 << 10]byte
 	buf[n%len(buf)] = byte(n)
-	return int(buf[(n+7)%len(buf)])
+	p := catch(f)
+	if buf[(n+7)%len(buf)] != 0 {
+		return "corrupted frame"
+	}
+	return p
 }
 
 func whose(r, a int) string {
